@@ -146,6 +146,27 @@ def gen(tier):
         yield {'k': 'lit', 'expr': 'month(%s)' % q(d), 'exp': float(t.month), 'cmp': 'num', 'fn': 'month'}
         yield {'k': 'lit', 'expr': 'day(%s)' % q(d), 'exp': float(t.day), 'cmp': 'num', 'fn': 'day'}
         yield {'k': 'lit', 'expr': 'dow(%s)' % q(d), 'exp': float((t.weekday() + 1) % 7 + 1), 'cmp': 'num', 'fn': 'dow'}
+    # ---- date functions must not remember an earlier argument: same first word, different dates - in one query and across rows
+    for a, b in (("'shot 2023-10-01.png'", "'shot 2024-02-29.png'"), ("'2021-03-04 note'", "'2021-03-05 note'"), ("'x 2020-12-31'", "'x 2021-01-01'")):
+        for fn in ('year', 'month', 'day', 'dow'):
+            yield {'k': 'pair', 'a': '%s(%s)' % (fn, a), 'b': '%s(%s)' % (fn, b), 'fn': 'two-dates-one-prefix'}
+    yield {'k': 'daterows', 'expr': 'year(name)', 'fn': 'date-rows'}
+    yield {'k': 'daterows', 'expr': 'month(name)', 'fn': 'date-rows'}
+    yield {'k': 'daterows', 'expr': 'day(name)', 'fn': 'date-rows'}
+    # ---- wall-clock times that exist twice or not at all in a DST zone are still dates
+    for tz in ('Europe/Berlin', 'America/New_York', 'Australia/Lord_Howe', 'UTC'):
+        for d in ('2024-03-31 02:30:00', '2023-10-29 02:30:00', '2021-03-14 02:30:00', '2021-11-07 01:30:00', '2021-06-15 12:00:00'):
+            t = dt.datetime.strptime(d[:10], '%Y-%m-%d')
+            yield {'k': 'lit', 'expr': 'year(%s)' % q(d), 'exp': float(t.year), 'cmp': 'num', 'fn': 'year-dst', 'tz': tz}
+            yield {'k': 'lit', 'expr': 'day(%s)' % q(d), 'exp': float(t.day), 'cmp': 'num', 'fn': 'day-dst', 'tz': tz}
+            yield {'k': 'lit', 'expr': 'dow(%s)' % q(d), 'exp': float((t.weekday() + 1) % 7 + 1), 'cmp': 'num', 'fn': 'dow-dst', 'tz': tz}
+    # ---- backslashes are ordinary characters in every quoting style
+    for sv in ('C:\\', 'a\\b', '\\\\srv\\share', 'x\\', 'tab\\t', '\\'):
+        for qq in ("'", '"', '`'):
+            lit = qq + sv + qq
+            yield {'k': 'lit', 'expr': 'length(%s)' % lit, 'exp': str(len(sv)), 'cmp': 'eq', 'fn': 'backslash-literal'}
+            yield {'k': 'lit', 'expr': 'upper(%s)' % lit, 'exp': sv.upper(), 'cmp': 'eq', 'fn': 'backslash-literal'}
+            yield {'k': 'lit', 'expr': "concat(%s, 'z')" % lit, 'exp': sv + 'z', 'cmp': 'eq', 'fn': 'backslash-literal'}
     # ---- the same functions on column values (rows = strings of the pool as file names)
     for fn in SFUNCS:
         yield {'k': 'col', 'expr': '%s(name)' % fn, 'fn': fn, 'cmp': 'ws' if fn == 'initcap' else 'eq'}
@@ -257,7 +278,7 @@ def eval_group(env, group, tier):
                 r.update(status='viol', cls=cls, detail=detail, sig=('viol', cls))
             if k == 'lit':
                 query = c['expr'] + ' into list'
-                o = env.run([query], cwd=root)
+                o = env.run([query], cwd=root, env={'TZ': c['tz']} if c.get('tz') else None)
                 rows = o.rows()
                 if o.timeout or o.rc != 0 or o.err or len(rows) > 1:
                     viol(c['fn'] + ':status', dict(o.brief(), query=query))
@@ -318,6 +339,23 @@ def eval_group(env, group, tier):
                              {'query': query, 'row': bad[0], 'got': bad[1], 'expected': str(bad[2])})
                     else:
                         r.update(status='ok', sig=tuple(v for _, v in sorted(rows))[:6])
+            elif k == 'daterows':
+                d2 = env.newdir('dr')
+                try:
+                    names = ['shot 2023-10-01.png', 'shot 2024-02-29.png', 'shot 2019-07-09.png', 'a 2020-12-31', 'a 2021-01-01', '2022-05-06 b', '2022-05-07 b']
+                    core.materialise(d2, {n: F(1) for n in names})
+                    query = 'name, %s from . into list' % c['expr']
+                    o = env.run([query], cwd=d2)
+                    rows = o.rows(2)
+                    import re as _re
+                    part = {'year(name)': 1, 'month(name)': 2, 'day(name)': 3}[c['expr']]
+                    exp = {n: str(int(_re.search(r'(\d{4})-(\d{2})-(\d{2})', n).group(part))) for n in names}
+                    if o.rc != 0 or not rows or dict(rows) != exp:
+                        viol(c['fn'], {'query': query, 'got': dict(rows or []), 'expected': exp})
+                    else:
+                        r.update(status='ok', sig=tuple(sorted(exp.values())))
+                finally:
+                    env.rmtree(d2)
             elif k == 'pair':
                 # differential: the value of each call next to the other equals its value alone
                 q2 = 'name, %s, %s from . into list' % (c['a'], c['b'])
